@@ -1248,11 +1248,18 @@ class RTCSctpTransport(AsyncIOEventEmitter):
         # handle gap blocks
         loss = False
         if chunk.gaps:
+            # only the chunks we actually sent matter, do not walk the
+            # whole range a (possibly hostile) gap block announces
             seen = set()
+            highest_seen_tsn = chunk.cumulative_tsn
             for gap in chunk.gaps:
-                for pos in range(gap[0], gap[1] + 1):
-                    highest_seen_tsn = (chunk.cumulative_tsn + pos) % SCTP_TSN_MODULO
-                    seen.add(highest_seen_tsn)
+                if gap[0] > gap[1]:
+                    continue
+                highest_seen_tsn = (chunk.cumulative_tsn + gap[1]) % SCTP_TSN_MODULO
+                for schunk in self._sent_queue:
+                    offset = (schunk.tsn - chunk.cumulative_tsn) % SCTP_TSN_MODULO
+                    if gap[0] <= offset <= gap[1]:
+                        seen.add(schunk.tsn)
 
             # determined Highest TSN Newly Acked (HTNA)
             highest_newly_acked = chunk.cumulative_tsn
